@@ -123,7 +123,7 @@ def gen_cases(seed, tier):
         if vf == 'zero' and rng.random() < 0.7:
             vf = 'normal'
         out.append({'kind': 'anova', 'seed': int(rng.integers(1 << 62)),
-            'd': int(rng.integers(2, 7 if order == 1 else 6)),
+            'd': int(rng.integers(2, 8 if order == 1 else 7)),
             'nmax': int(rng.integers(2, nmx + 1)),
             'mmax': 3000 if quick else 6000,
             'order': order,
@@ -694,7 +694,11 @@ def run_anova(case, ctx, teneva):
         return
     ctx.event('o2-rank-large-enough')
     npairs = len(M.pairs)
-    assert npairs < 15      # one rounding inside add_many (trunc_freq = 15)
+    # add_many rounds once at the end, and once more (accuracy only, no rank
+    # cap) after every 15th addition: with exactly 15 pairs (d = 6) that extra
+    # rounding also acts on the complete sum
+    assert npairs <= 15
+    n_round = 2 if npairs == 15 else 1
 
     def tails(T):
         Tf = np.asarray(T, dtype=float)
@@ -723,6 +727,9 @@ def run_anova(case, ctx, teneva):
 
     absT = ref.dense_ld([np.abs(G) + D for G, D in zip(E, Dc)]) + M.dense2('abs')
     base = trunc_tol(Tstar, absT) + tolpairF + fro(tol1)
+    if n_round == 2:
+        base += trunc_tol(Tstar, absT) - tails(Tstar) * (1 + 1e-8)
+        ctx.event('o2-two-roundings')
     if noise == 0 or exact_noise:
         tolF = base
         # two monitor names so that the evidence shows the margin of the
